@@ -447,8 +447,28 @@ def run_shared(chk, tier, own):
     judge(chk, env.rec, own)
 
 
+def judge_recorded_suite(chk, own):
+    """L3 on the repository's own tests: every shared-aggregate call they make on either cube is judged cell by cell"""
+    data = core.record_test_suite()
+    rec = cb.CubeRecorder()
+    for n, e in enumerate(data["cube"]):
+        ev = e["event"]
+        ev["tid"] = n + 1
+        ev["prop"] = own
+        rec.events.append(ev)
+        rec.meta[ev["tid"]] = e["meta"]
+        for q, v in e["floats"].items():
+            rec.floats[(ev["tid"], int(q))] = v
+    if not rec.events:
+        raise core.MachineryFailure("no cube events recorded from the test-suite")
+    judge(chk, rec, own)
+    chk.extra["test_suite_cube_calls_recorded"] = data["recorded"]
+    chk.extra["test_suite_calls_skipped_out_of_contract"] = data["skipped"]
+
+
 def run(chk, tier):
     run_shared(chk, tier, OWN)
+    judge_recorded_suite(chk, OWN)
     chk.rule = RULE
     chk.assumptions += ASSUME
 
